@@ -140,7 +140,10 @@ def native_run(ctx, scenario, big):
         o = Oracle(env={'PATH': d + ':/bin:/usr/bin'})
         # the embedded SOURCE literal is part of the program: text with `} `, `; `, `{ ` and quotes must survive formatter and fallback alike
         src = ('fn h(x: f32) -> f32 { if (x > 0.0) { return 1.0; } else { return 2.0; } } // "q" \\ { } ;  \n@fragment fn main() {}\n'
-               + ('// ' + 'x' * 100 + '\n') * (3000 if big else 0))
+               + ('// ' + 'x' * 100 + '\n') * (3000 if big is True else 0))
+        if isinstance(big, int) and not isinstance(big, bool):
+            # above the pipe buffer, made of 3-byte characters at a given alignment: code that cuts the text by BYTES must respect characters
+            src += '//' + 'y' * big + ('\u2192' * 40 + '\n// ') * 1200 + '\n'
         r = o.req(cmd='gen', wgsl=src, options={'rustfmt': True}, include=None, _timeout=30)      # a hang is a finding, not a wait
         o.close()
         r0 = ctx.S.oracle.gen(src, {'rustfmt': False})
@@ -269,7 +272,8 @@ def native_all(ctx, seen=None):
     """every fault scenario on the real build, below and above the pipe buffer: all must return the program"""
     seen = {} if seen is None else seen
     for sc in FAKES:
-        for big in ((False, True) if ctx.tier == 'thorough' or sc in ('exit0_without_reading', 'exit0_after_partial_read_with_output', 'killed', 'killed_after_partial_output', 'working') else (False,)):
+        for big in ((False, True) if ctx.tier == 'thorough' or sc in ('exit0_without_reading', 'exit0_after_partial_read_with_output', 'killed', 'killed_after_partial_output', 'working') else (False,)) \
+                + ((1, 2, 3) if sc in ('working', 'exit1_after_reading') else ()):
             r, r0 = native_run(ctx, sc, big)
             good = 'ok' in r and 'ok' in r0 and same_program(ctx, r['ok'], r0['ok'])
             ctx.sample({'scenario': sc, 'output_over_64KiB': big, 'returns_same_program': good})
